@@ -366,8 +366,10 @@ Definition via_parent_parent (t : table) (r f g h : string) : outcome (option st
                   Class := defining class, StaticClass := the caller's late static binding class when that class is
                   (checkClassIs) the named class or below it, else the named class
      static::m()  CallStaticKeywordMethod: start = StaticClass or Class; callee = staticMethodFuncWithLateBinding:
-                  Class := StaticClass := that start class *)
-Inductive hop := HThis (m : string) | HSelf (s : string) | HStatic (s : string) | HParent (m : string).
+                  Class := StaticClass := that start class
+     C::m()       a call that NAMES a class, written inside a method: CallStaticMethod with forward = false:
+                  Class := defining class, StaticClass := C whatever the caller's late static binding class is *)
+Inductive hop := HThis (m : string) | HSelf (s : string) | HStatic (s : string) | HParent (m : string) | HNamed (c s : string).
 Record mctx := { x_cls : string; x_static : option string; x_self : option string; x_lex : string }.
 Definition lsb (x : mctx) : string := match x_static x with Some s => s | None => x_cls x end.
 Definition forwarded (t : table) (x : mctx) (named : string) : outcome string :=
@@ -398,6 +400,9 @@ Definition hop_step (t : table) (x : mctx) (h : hop) : outcome (option mctx) :=
   | HStatic s =>
       bind2 (static_keyword_call t (x_static x) (x_cls x) s) (fun d =>
         Ok (Some {| x_cls := lsb x; x_static := Some (lsb x); x_self := None; x_lex := d |}))
+  | HNamed c s =>
+      bind2 (static_call t c s) (fun d =>
+        Ok (Some {| x_cls := d; x_static := Some c; x_self := None; x_lex := d |}))
   end.
 (* the classes whose definitions run, hop after hop *)
 Fixpoint hops (t : table) (x : mctx) (hs : list hop) : outcome (option (list string)) :=
